@@ -107,6 +107,12 @@ func c20MapOrder(r *Run) {
 				n++
 				key := fmt.Sprintf("%s#range:%s", funcKey(pkg, fd), strings.ReplaceAll(exprStr(rs.X), " ", ""))
 				verdict, why := classifyMapRange(pkg, fd, rs)
+				if verdict != "ok" && c20RequestMap(pkg.TypesInfo, rs.X) {
+					// HTTP request data (url.Values, http.Header, a multipart form's maps): the order in which
+					// the client sent the entries is already lost in net/http's own maps, and no sequential
+					// program without a server reaches it
+					verdict, why = "ok", "ranges over a map handed out by net/http / net/url: its order is lost before the interpreter sees it"
+				}
 				switch verdict {
 				case "ok":
 					r.ok(key, rs.Pos(), why)
@@ -613,6 +619,24 @@ func isSyncType(t types.Type) bool {
 	switch nt.Obj().Pkg().Path() {
 	case "sync", "sync/atomic":
 		return true
+	}
+	return false
+}
+
+// c20RequestMap: the ranged expression is a map of the HTTP request — of type net/url.Values, net/http.Header,
+// net/textproto.MIMEHeader, or a field of mime/multipart.Form.
+func c20RequestMap(info *types.Info, e ast.Expr) bool {
+	t := info.TypeOf(e)
+	if nt := namedOf(t); nt != nil && nt.Obj().Pkg() != nil {
+		switch nt.Obj().Pkg().Path() + "." + nt.Obj().Name() {
+		case "net/url.Values", "net/http.Header", "net/textproto.MIMEHeader":
+			return true
+		}
+	}
+	if se, ok := ast.Unparen(e).(*ast.SelectorExpr); ok {
+		if bt := namedOf(info.TypeOf(se.X)); bt != nil && bt.Obj().Pkg() != nil && bt.Obj().Pkg().Path() == "mime/multipart" && bt.Obj().Name() == "Form" {
+			return true
+		}
 	}
 	return false
 }
